@@ -11,6 +11,7 @@ import (
 	_ "github.com/apmckinlay/gsuneido/dbms" // sets db19.MakeSuTran
 	"github.com/apmckinlay/gsuneido/dbms/query"
 	"pgregory.net/rapid"
+	"verifharness/internal/kf"
 )
 
 // WorldOpts selects which schema features the generator may use.
@@ -85,6 +86,23 @@ func genSchemas(t *rapid.T, o WorldOpts) []string {
 			for f := 0; f < nf; f++ {
 				c := fkcs[rapid.IntRange(0, len(fkcs)-1).Draw(t, "fk")]
 				mode := modes[rapid.IntRange(0, 2).Draw(t, "fkmode")]
+				// known finding C08/overlapping-fk-cascade-update: two foreign keys of
+				// one table that share a column are not generated while it is listed
+				if _, known := kf.Known("C08", "overlapping-fk-cascade-update"); known {
+					overlap := false
+					for other := range fkOn {
+						for _, oc := range strings.Split(other, ",") {
+							for _, cc := range c.cols {
+								if oc == cc && other != strings.Join(c.cols, ",") {
+									overlap = true
+								}
+							}
+						}
+					}
+					if overlap {
+						continue
+					}
+				}
 				fkOn[strings.Join(c.cols, ",")] = fmt.Sprintf(" in %s(%s)%s", c.tgt, strings.Join(c.tcols, ","), mode)
 			}
 		}
